@@ -36,9 +36,9 @@ func init() {
 	fw.Register(&fw.Prop{
 		ID: "C13",
 		Rule: "case = one run of the listener wrapper over a scripted listener: a mix of connection classes (A terminal route, B falls through, C non-terminal route then falls through " +
-			"[take / proxy_protocol / tls], D fails matching [matcher error / timeout / buffer full], L/M clients that send most of their stream long after the matching timeout; one run in six uses a route list " +
+			"[take / proxy_protocol / tls / subroute], D fails matching [matcher error / timeout / buffer full], L/M clients that send most of their stream long after the matching timeout; one run in six uses a route list " +
 			"whose matchers all say no without reading), PRF streams with random segmentation, an Accept consumer with scripted pacing " +
-			"(immediate / slower than arrival / stops), and a scripted close instant. oracle: each B/C connection is returned by Accept exactly once and reads the client's stream from the first " +
+			"(immediate / slower than arrival / stops), and a scripted close instant. every sixth run is followed by a two-listener run (one wrapper instance wraps two listeners: each connection must come out of its own listener's Accept, closing one leaves the other serving). oracle: each B/C connection is returned by Accept exactly once and reads the client's stream from the first " +
 			"unconsumed byte (TLS: plaintext + ConnectionState) with no read deadline left armed by matching; A/D are never returned and are closed; a connection pending at Close is either returned once or closed, never both/neither; " +
 			"after Close Accept returns net.ErrClosed and no goroutine remains in layer4.(*listener). non-trivial = >=1 fall-through connection accepted; distinct = hash(order signature of arrive/accept/close events)",
 		Assumptions: []string{
@@ -153,6 +153,9 @@ func run(c *fw.Ctx) {
 			continue
 		}
 		oneRun(c, cert, i, nConns)
+		if i%6 == 1 {
+			twoListeners(c, i)
+		}
 	}
 	_ = caddy.Stop()
 }
